@@ -24,16 +24,16 @@ func init() {
 
 // per-request object types: writing their fields through a pointer is not a shared write.
 var perRequestTypes = map[string]string{
-	"rt/middleware.MatchedRoute":     "allocated per lookup by defaultRouter.Lookup (R09.2)",
-	"rt/middleware.validation":       "allocated per request by validateRequest",
-	"rt/middleware.contentTypeValue": "allocated per request by Context.ContentType",
-	"rt/middleware.errorResp":        "responder object created per result",
-	"rt/middleware/denco.Param":      "element of the params slice made per Router.Lookup call",
-	"rt/security.ScopedAuthRequest":  "allocated per authentication attempt",
+	"rt/middleware.MatchedRoute":      "allocated per lookup by defaultRouter.Lookup (R09.2)",
+	"rt/middleware.validation":        "allocated per request by validateRequest",
+	"rt/middleware.contentTypeValue":  "allocated per request by Context.ContentType",
+	"rt/middleware.errorResp":         "responder object created per result",
+	"rt/middleware/denco.Param":       "element of the params slice made per Router.Lookup call",
+	"rt/security.ScopedAuthRequest":   "allocated per authentication attempt",
 	"rt/middleware/header.AcceptSpec": "parsed per request",
-	"rt.peekingReader":               "body wrapper created per request by HasBody",
-	"rt.File":                        "bound value created per request",
-	"rt.csvRecordsWriter":            "record container allocated per Consume/Produce call",
+	"rt.peekingReader":                "body wrapper created per request by HasBody",
+	"rt.File":                         "bound value created per request",
+	"rt.csvRecordsWriter":             "record container allocated per Consume/Produce call",
 }
 
 func c09Entries(c *Ctx) []*ssa.Function {
